@@ -535,7 +535,15 @@ func runC05(c *Ctx, idx int, o *Obs) {
 			if len(texts) >= 2 {
 				f := tmpFile(c, "c05og.nw", strings.Join(texts, "\n")+"\n")
 				inp := strings.Join(texts, "\n") + "\noutgroup: " + strings.Join(og, ",")
-				res, _ := runCLIOut(c, r, "", append([]string{"reroot", "outgroup", "-i", f}, og...)...)
+				ogArgs := og
+				if r.Intn(2) == 0 && !strings.ContainsAny(strings.Join(og, ""), ", \t\r\n") {
+					// the outgroup in a tip file, in one of the layouts the option accepts
+					content, kind := tipFileContent(r, og)
+					ogArgs = []string{"-l", tmpFile(c, "c05og.txt", content)}
+					o.Ev("cli_outgroup_file:"+kind, 1)
+					inp += "\noutgroup file (" + kind + "): " + Trunc(content, 300)
+				}
+				res, _ := runCLIOut(c, r, "", append([]string{"reroot", "outgroup", "-i", f}, ogArgs...)...)
 				o.Ev("cli:reroot outgroup multi", 1)
 				what := "gotree reroot outgroup on a file of " + fmt.Sprint(len(texts)) + " trees with different tip sets"
 				if o.Check(res.Exit == 0 && !res.Panic, "cli_failed", what+": "+res.brief(), inp) {
